@@ -350,6 +350,8 @@ def is_isfile(repo, module):
 
 
 def rule_R3(ctx, repo):
+    record_roundtrip(ctx, repo)
+    soft = _SoftCtx(ctx, repo)
     base, attr_role, reg_pos = registry_roles(repo)
     ctx.check(attr_role.get("strategy_names") == "S" and attr_role.get("dataset_names") == "D"
               and reg_pos == {0: "S", 1: "D"} if attr_role and reg_pos else None,
@@ -416,6 +418,7 @@ def rule_R3(ctx, repo):
                                   ctx.loc(kcls.module, keyfn))
         for fam, members in FAMILIES.items():
             tpls = {}
+            unread = set()
             for m in members:
                 h = repo.lookup_method(cls, m)
                 if h is None:
@@ -425,7 +428,8 @@ def rule_R3(ctx, repo):
                 try:
                     t = key_templates(repo, cls, fn)
                 except Undecided as e:
-                    ctx.undecided("R3", "%s.%s:key" % (cname, m), str(e), ctx.loc(dcls.module, fn))
+                    soft.undecided("R3", "%s.%s:key" % (cname, m), str(e), ctx.loc(dcls.module, fn))
+                    unread.add(m)
                     continue
                 if len(t) > 1:
                     ctx.undecided("R3", "%s.%s:key" % (cname, m), "builds %d keys" % len(t), ctx.loc(dcls.module, fn))
@@ -438,8 +442,13 @@ def rule_R3(ctx, repo):
             need = members if cname == "HDDResults" else tuple(m for m in members if m in tpls)
             for m in need:
                 c = "%s.%s:key" % (cname, m)
+                if m in unread:
+                    continue
                 if m not in tpls:
                     h = repo.lookup_method(cls, m)
+                    if soft._decided(c):
+                        ctx.info("%s builds its location through other code than a direct key template (judged by the interpreted round trip)" % c)
+                        continue
                     ctx.violation("R3", c, "%s does not build its location with _generate_key, the other members of the "
                                   "%s family do" % (m, fam), ctx.loc(h[0].module, h[1]) if h else None)
                     continue
@@ -487,18 +496,17 @@ def rule_R3(ctx, repo):
                 probes = [c for c in astq.calls(fn) if pred(c)]
                 c = "%s.%s:returns-exists" % (cname, m)
                 if len(probes) != 1 or len(probes[0].args) != 1:
-                    ctx.undecided("R3", c, "expected one os.path.isfile probe, found %d" % len(probes), ctx.loc(dcls.module, fn))
+                    soft.undecided("R3", c, "expected one os.path.isfile probe, found %d" % len(probes), ctx.loc(dcls.module, fn))
                     continue
                 arg = S.resolve_at(fn, probes[0].args[0], probes[0])
                 on_key = mentions_key(repo, cls, fn, arg)
                 r = returns_atom(fn, lambda k: k is probes[0])
                 if not on_key:
-                    ctx.undecided("R3", c, "the probed path is not the generated key: %s" % astq.canon(arg), ctx.loc(dcls.module, fn))
+                    soft.undecided("R3", c, "the probed path is not the generated key: %s" % astq.canon(arg), ctx.loc(dcls.module, fn))
                 else:
-                    ctx.check(r, "R3", c, "returns True exactly when the file at the key exists",
+                    soft.check(r, "R3", c, "returns True exactly when the file at the key exists",
                               "does not return the truth value of the existence probe (inverted or constant)", ctx.loc(dcls.module, fn))
-    record_roundtrip(ctx, repo)
-    rule_R3_fields(_SoftCtx(ctx, repo), repo, reg_pos)
+    rule_R3_fields(soft, repo, reg_pos)
     return templates
 
 
@@ -595,10 +603,59 @@ def record_roundtrip(ctx, repo):
                 return v[1:-1]
             return v
 
+        ext["os.path.isfile"] = lambda i, a, k, n: isinstance(a[0], str) and a[0] in vfs.files
+        saved_objects = {}
+        ext["joblib.load"] = lambda i, a, k, n: saved_objects.get(a[0])
+
+        class _Strat:
+            def __init__(self, name):
+                self.name = name
+
+            def m_getattr(self, interp, attr):
+                if attr == "name":
+                    return self.name
+                if attr == "save":
+                    return M.BoundExt(self, "save")
+                raise U("strategy.%s" % attr)
+
+            def m_method(self, interp, name, args, kwargs, node):
+                path = args[0] if args else kwargs.get("path")
+                vfs.files[path] = "<pickle of %s>" % self.name
+                saved_objects[path] = self
+
+        def exists(kind, sname="«s»", dname="«d»", fold=0, part="train"):
+            if kind == "pred":
+                h = repo.lookup_method(cls, "check_predictions_exist")
+                return it.call_function(h[0].module, h[1], [me], {"strategy_name": sname, "dataset_name": dname, "cv_fold": fold, "train_or_test": part})
+            h = repo.lookup_method(cls, "check_fitted_strategy_exists")
+            return it.call_function(h[0].module, h[1], [me], {"strategy_name": sname, "dataset_name": dname, "cv_fold": fold})
+
         try:
             save = repo.lookup_method(cls, "save_predictions")
             load = repo.lookup_method(cls, "load_predictions")
             stored = {}
+            if cname == "HDDResults":
+                # the existence checks answer exactly for the records that were stored
+                obs = {"before": exists("pred", part="train")}
+                it.call_function(save[0].module, save[1], [me], dict(rec("train")))
+                obs.update({"own": exists("pred", part="train"), "other part": exists("pred", part="test"),
+                            "other fold": exists("pred", fold=1, part="train"), "other data set": exists("pred", dname="«d2»", part="train"),
+                            "other strategy": exists("pred", sname="«s2»", part="train")})
+                sf = repo.lookup_method(cls, "save_fitted_strategy")
+                obs["fitted before"] = exists("fit")
+                it.call_function(sf[0].module, sf[1], [me], {"strategy": _Strat("«s»"), "dataset_name": "«d»", "cv_fold": 0})
+                obs.update({"fitted own": exists("fit"), "fitted other fold": exists("fit", fold=1), "fitted other data set": exists("fit", dname="«d2»")})
+                want_true = {"own", "fitted own"}
+                for k, v in obs.items():
+                    ctx.check(bool(v) == (k in want_true) and isinstance(v, bool), "R3", "%s:exists[%s]" % (tag, k),
+                              "existence check answers %s" % (k in want_true),
+                              "after storing the train predictions and the fitted strategy of («s», «d», fold 0) the existence check for "
+                              "[%s] answers %r, expected %r" % (k, v, k in want_true), loc)
+                lf = repo.lookup_method(cls, "load_fitted_strategy")
+                me.attrs["strategy_names"], me.attrs["dataset_names"] = ["«s»"], ["«d»"]
+                got_s = it.call_function(lf[0].module, lf[1], [me], {"strategy_name": "«s»", "dataset_name": "«d»", "cv_fold": 0})
+                ctx.check(isinstance(got_s, _Strat) and got_s.name == "«s»", "R3", tag + ":fitted-loaded", "load_fitted_strategy returns the saved strategy",
+                          "load_fitted_strategy returns %r, not the strategy that was saved" % (got_s,), loc)
             for part in ("train", "test"):
                 r = rec(part)
                 stored[part] = r
@@ -1074,10 +1131,14 @@ FLAGS = {
 
 
 def single_return(fn):
-    """The returned expression of a helper whose body is (docstring +) one ``return <expr>``, else None."""
+    """The returned expression of a straight-line helper (docstring, plain assignments, then one ``return <expr>``),
+    rewritten over the helper's parameters; else None."""
     body = [st for st in fn.body if not (isinstance(st, ast.Expr) and isinstance(st.value, ast.Constant))]
-    if len(body) == 1 and isinstance(body[0], ast.Return) and body[0].value is not None:
-        return body[0].value
+    if body and isinstance(body[-1], ast.Return) and body[-1].value is not None \
+            and all(isinstance(st, (ast.Assign, ast.AnnAssign)) for st in body[:-1]) \
+            and len(astq.returns(fn)) == 1:
+        v = S.resolve_at(fn, body[-1].value, body[-1])
+        return None if S.is_opaque(v) else v
     return None
 
 
@@ -1196,7 +1257,74 @@ class Consumer:
                 sites.append((c, sc.func.attr, closed, c.func.attr))
         return sites, opaque
 
+    def interpreted_key(self, call, mname, closed=False):
+        """The file the disk store probes / writes for this call, found by interpreting the HDDResults method on tokens that
+        stand for the caller's argument expressions: ('path', P, suffix).  Independent of how the method builds the path."""
+        from ._c18_mini import Interp, PyRaise, Undecided as U
+        from . import _c18_models as M
+        h = self.repo.lookup_method(self.hdd, mname)
+        if h is None:
+            return None
+        dcls, mfn = h
+        b = astq.bind_call(mfn, call, skip_self=True)
+        if b is None or any(k in b for k in ("*", "**", "!unknown")):
+            return None
+        env = {} if closed else S.env_at(self.fn, call)
+        vfs = M.VFS()
+        seen = []
+
+        class _Obj:
+            def __init__(self, text):
+                self.text = text
+
+            def m_getattr(self, interp, attr):
+                if attr == "save":
+                    return M.BoundExt(self, "save")
+                return "«%s.%s»" % (self.text, attr)
+
+            def m_method(self, interp, name, args, kwargs, node):
+                seen.append(args[0] if args else kwargs.get("path"))
+
+        args = {}
+        part = "'train'"
+        for pn, v in b.items():
+            if not isinstance(v, ast.AST):
+                continue
+            e = RoleRename(self.roles).visit(S.subst(v, env))
+            if isinstance(e, ast.Constant):
+                args[pn] = e.value
+            elif pn == "strategy":
+                args[pn] = _Obj(astq.canon(e))
+            else:
+                args[pn] = "«%s»" % astq.canon(e)
+            if pn == "train_or_test":
+                part = astq.canon(e)
+        ext = dict(M.make_externals(vfs))
+        ext["os.path.isfile"] = lambda i, a, k, n: (seen.append(a[0]), False)[1]
+        ext["os.path.exists"] = lambda i, a, k, n: True
+        it = Interp(self.repo, ext, M.to_float, M.str_hook)
+        it.vfs = vfs
+        me = _Instance(self.repo, self.hdd, {"_path": "/res", "strategy_names": [], "dataset_names": [], "cv": None})
+        try:
+            it.call_function(dcls.module, mfn, [me], args)
+        except (U, PyRaise):
+            return None
+        paths = [p for p in seen if isinstance(p, str)] + [p for p in vfs.files if isinstance(p, str)]
+        if len(set(paths)) != 1:
+            return None
+        path = paths[0]
+        suffix = "." + path.rsplit(".", 1)[-1] if "." in path.rsplit("/", 1)[-1] else ""
+        return (path, "", "", part, "", suffix)
+
     def caller_key(self, call, mname, closed=False):
+        """Key probed / written by a results call: interpreted (see interpreted_key); the syntactic key template is the
+        fall-back when the method cannot be interpreted."""
+        k = self.interpreted_key(call, mname, closed)
+        if k is not None:
+            return k
+        return self.template_key(call, mname, closed)
+
+    def template_key(self, call, mname, closed=False):
         """Key probed / written by a results call, in caller terms: (S, D, F, P, prefix, suffix) canonical strings.
         ``closed``: ``call`` is a synthetic expression already written over parameters and roles (an inlined helper)."""
         h = self.repo.lookup_method(self.hdd, mname)
@@ -1227,7 +1355,7 @@ class Consumer:
 
 
 def key_text(k):
-    return "%s|%s|%s|%s%s" % (k[0], k[1], k[2], k[3], k[5])
+    return k[0] if not k[1] and not k[2] else "%s|%s|%s|%s%s" % (k[0], k[1], k[2], k[3], k[5])
 
 
 def atom_name(k):
@@ -1267,6 +1395,12 @@ def analyse_fit_predict(ctx, repo, flow, roles, method="fit_predict", FLAGS=FLAG
             inl = cons.inline_helper(e, closed=True, depth=depth)
             if inl is not None:
                 return P.from_ast(inl, lambda x: closed_atom(x, depth + 1))
+        if isinstance(e, ast.Subscript) and isinstance(e.slice, ast.Constant) and isinstance(e.slice.value, int) and depth < 3:
+            # component of a tuple-returning helper: ``a, b, c = self._lookup(...)``
+            base = e.value.args[0] if S.is_marker(e.value, S.UNPACK) and e.value.args else e.value
+            tup = cons.inline_helper(base, closed=True, depth=depth) if isinstance(base, ast.Call) else base
+            if isinstance(tup, ast.Tuple) and 0 <= e.slice.value < len(tup.elts):
+                return P.from_ast(tup.elts[e.slice.value], lambda x: closed_atom(x, depth + 1))
         k = ("opaque", astq.canon(e))
         unresolved.add(k)
         return P.Atom(k)
@@ -1287,6 +1421,17 @@ def analyse_fit_predict(ctx, repo, flow, roles, method="fit_predict", FLAGS=FLAG
                     dn = g.node_of(vals[0])
                     if dn is not None and node is not None and g.dominates(dn, node):
                         return P.from_ast(vals[0], atom_of_at(dn))
+                # any other straight-line provenance (tuple unpacking, helper results): the symbolic environment at the test
+                at = getattr(getattr(node, "stmt", None), "test", None) if node is not None else None
+                if at is None and node is not None and node.exprs:
+                    at = node.exprs[0]
+                if at is not None:
+                    try:
+                        e2 = cons.sub(e, at)
+                    except ValueError:
+                        e2 = e
+                    if not (isinstance(e2, ast.Name) and e2.id == e.id) and not S.is_opaque(e2):
+                        return P.from_ast(e2, closed_atom)
                 k = ("opaque", e.id)
                 unresolved.add(k)
                 return P.Atom(k)
@@ -1315,6 +1460,52 @@ def analyse_fit_predict(ctx, repo, flow, roles, method="fit_predict", FLAGS=FLAG
         if g.dominates(t, header) and t is not header:
             f = P.from_ast(test, atom_of_at(t))
             adm = P.And(adm, P.Not(f) if branch else f)
+    # ... or delegated to a helper that raises for inadmissible option combinations
+    for st in fn.body:
+        call = st.value if isinstance(st, ast.Expr) and isinstance(st.value, ast.Call) else None
+        if call is None or not self_call(call):
+            continue
+        h = repo.lookup_method(cls, call.func.attr)
+        if h is None or not any(isinstance(n, ast.Raise) for n in astq.walk_no_nested(h[1])):
+            continue
+        hfn = h[1]
+        b = astq.bind_call(hfn, call, skip_self=not h[0].is_static(call.func.attr))
+        if b is None or any(k in b for k in ("*", "**", "!unknown")):
+            continue
+        pf = {pn: P.from_ast(v, atom_of_at(g.node_of(call))) for pn, v in b.items() if isinstance(v, ast.AST)}
+        hkeys = []
+        for f in pf.values():
+            for k in P.atoms(f):
+                if k not in hkeys:
+                    hkeys.append(k)
+        if not hkeys or len(hkeys) > 6 or any(k[0] != "flag" for k in hkeys):
+            continue
+        hg = CFG(hfn)
+
+        def hatom(e2, pf=pf):
+            if isinstance(e2, ast.Name) and e2.id in pf:
+                return pf[e2.id]
+            return None
+
+        ok_rows, clean = [], True
+        for sg in P.assignments(hkeys):
+            bad = []
+
+            def truth(n, sg=sg):
+                f = P.from_ast(n.stmt.test, hatom)
+                if any(k not in sg for k in P.atoms(f)):
+                    bad.append(n)
+                    return None
+                return P.evaluate(f, sg)
+
+            seen_h, _ = simulate(hg, [hg.entry], set(), truth)
+            if bad:
+                clean = False
+                break
+            if hg.exit.id in seen_h:
+                ok_rows.append(sg)
+        if clean:
+            adm = P.And(adm, P.Or(*[P.And(*[P.Atom(k) if v else P.Not(P.Atom(k)) for k, v in sg.items()]) for sg in ok_rows]))
     # sites ------------------------------------------------------------------------------------
     in_body, _ = simulate(g, body_starts, {header.id}, lambda n: None)
     stores, fits, registers = {}, [], []
@@ -1978,6 +2169,28 @@ def rule_presplit(ctx, repo):
     if not (isinstance(fold, tuple) and len(fold) == 2 and all(hasattr(x, "data") for x in fold)):
         ctx.undecided("R4", tag + ":positions", "yielded value %r is not a (train, test) pair of position arrays" % (fold,), loc)
         return
+    # with an inner cv iterator the predefined fold still comes first, followed by the iterator's folds
+    class _CV:
+        def m_getattr(self, interp, attr):
+            if attr in ("split", "get_n_splits"):
+                return M.BoundExt(self, attr)
+            raise U("cv.%s" % attr)
+
+        def m_method(self, interp, name, args, kwargs, node):
+            return [("«cv_train»", "«cv_test»")] if name == "split" else 1
+
+    try:
+        out2 = Interp(repo, M.make_externals(M.VFS()), M.to_float, M.str_hook).call_function(cls.module, fn, [_Store({"cv": _CV()}), data])
+        ok2 = isinstance(out2, list) and len(out2) == 2 and isinstance(out2[0], tuple) and len(out2[0]) == 2 \
+            and all(hasattr(x, "data") for x in out2[0]) and list(out2[0][0].data) == [i for i, l in enumerate(labels) if l == "train"] \
+            and list(out2[0][1].data) == [i for i, l in enumerate(labels) if l == "test"] and tuple(out2[1]) == ("«cv_train»", "«cv_test»")
+        ctx.check(ok2, "R4", tag + ":with-inner-cv", "predefined fold first, then the folds of the inner cv iterator",
+                  "with an inner cv iterator that has one fold the generator yields %r, expected the predefined (train, test) fold "
+                  "followed by that fold" % (out2,), loc)
+    except U as e:
+        ctx.undecided("R4", tag + ":with-inner-cv", str(e), loc)
+    except PyRaise as e:
+        ctx.violation("R4", tag + ":with-inner-cv", "raises %s when an inner cv iterator is given" % (e.exc,), loc)
     for part, got in (("train", fold[0]), ("test", fold[1])):
         want = [i for i, l in enumerate(labels) if l == part]
         ctx.check(list(got.data) == want, "R4", "%s:%s-positions" % (tag, part),
@@ -2042,6 +2255,9 @@ class _Instance(_Store):
             if g is not None:
                 return interp.call_function(k.module, g, [self], {}, 1)
             if attr in k.methods:
+                if k.is_static(attr):
+                    from ._c18_mini import Func
+                    return Func(k.module, k.methods[attr], raw=True)
                 return _Bound(self, k.module, k.methods[attr])
         from ._c18_mini import Undecided as U
         raise U("%s object has no modelled attribute %r" % (self.cls.name, attr))
